@@ -250,6 +250,21 @@ pub fn run(tier: Tier, seed: u64, o: &mut Out) {
     o.notes.push(format!("port-graph host model: {} random pattern sets x 1-3 hosts; list_bind_options on grown binding maps, single matcher, traversal on dumped automata (3 heuristics), wf_check on every dump", n));
 }
 
+/// C09 on port graphs: the structural certificate of every dumped port-graph automaton, incl. the
+/// recomputation of scopes and recorded key lists (only the `pg-cert` cases of `run`)
+pub fn run_c09(tier: Tier, seed: u64, o: &mut Out) {
+    let mut tmp = Out::default();
+    run(tier, seed, &mut tmp);
+    let mut n = 0;
+    for (c, r) in tmp.cases.into_iter().zip(tmp.rust) {
+        if c.starts_with("(pg-cert ") {
+            o.case(c, r, true);
+            n += 1;
+        }
+    }
+    o.notes.push(format!("port graphs: wf_check, arity_ok, lab_ok, cert_complete, populate_scopes and add_pattern key lists on {} dumped automata", n));
+}
+
 /// replay one (pattern set, host) pair: `(pgmcase <ignored> ((graph root) ...) host ...)` — the format of `pgcase`
 pub fn replay(line: &str, o: &mut Out) {
     let s = sexp::parse(line).unwrap();
